@@ -8,6 +8,7 @@ import (
 	"go/constant"
 	"go/token"
 	"go/types"
+	"os"
 	"regexp"
 	"sort"
 	"strings"
@@ -66,6 +67,20 @@ var implicitPairs = map[string]string{
 	"node.Vector()": "idx.dim",
 }
 
+// implicitPairsByType: the same pairs with the writer's bound described by nameFree (locals by type).
+var implicitPairsByType = map[string]string{
+	"$*IVFIndex.centroids":   "idx.nlist",
+	"$*IVFPQIndex.centroids": "idx.nlist",
+	"$[]float32":             "idx.dim", // a stored vector
+	"$*PQIndex.codebooks":    "idx.M",
+	"$*IVFPQIndex.codebooks": "idx.M",
+	"$[]uint8":               "idx.M", // a PQ code
+	"$CompressedVector.Code": "idx.M",
+	"$*PQIndex.codes[$int]":  "idx.M",
+	"$VectorNode.Vector()":   "idx.dim",
+	"$*VectorNode.Vector()":  "idx.dim",
+}
+
 // notPersisted: mutable fields deliberately absent from the stream, one named symbol each, with the reason.
 var notPersisted = map[string]string{
 	"HNSWIndex.nextID": "private id source used only for vectors added with id 0; every property quantifies over non-zero ids (DESIGN section 8, recorded as ambiguous)",
@@ -109,6 +124,15 @@ func ruleFMT(r *Run, p string, doGrammar, doCounts, doHeader, doErr, doMagic, do
 					ws := strings.Replace(wimpl[i], k.Writer.RecvName+".", "idx.", 1)
 					rs := strings.Replace(rimpl[i], k.Reader.RecvName+".", "idx.", 1)
 					ok := implicitPairs[ws] == rs || ws == rs
+					if !ok {
+						// the same pair described without the names of locals
+						if key, has := k.Writer.BoundKey[wimpl[i]]; has && implicitPairsByType[key] == rs {
+							ok = true
+						}
+					}
+					if os.Getenv("COMETLINT_DEBUG_IMPL") != "" {
+						fmt.Fprintf(os.Stderr, "IMPL %s: %q -> key %q ; reader %q\n", k.Name, ws, k.Writer.BoundKey[wimpl[i]], rs)
+					}
 					r.Check(ok, p+".FMT1", fmt.Sprintf("%s:implicit:%s", k.Name, ws), rsite, "loop bound not carried by the stream: writer "+ws+" ↔ reader "+rs+" (frozen invariant)",
 						"writer loops over "+ws+" but reader loops "+rs+" times and the stream carries no count")
 				}
@@ -426,7 +450,7 @@ func ruleHeaderAndCoverage(r *Run, p string, k *serKind, doHeader, doCover bool)
 				f := st.Field(i).Name()
 				if containsSel(rhs, recvW, f) {
 					for _, l := range as.Lhs {
-						if id, ok := l.(*ast.Ident); ok && id.Name != "_" && id.Name != "err" {
+						if id, ok := l.(*ast.Ident); ok && id.Name != "_" && !isErrorType(w.Info.TypeOf(id)) {
 							alias[id.Name] = f
 						}
 					}
@@ -636,8 +660,13 @@ func ruleReadErrors(r *Run, rule string, k *serKind) {
 				if !ok || ifs.Init == nil {
 					return true
 				}
-				cs := exprStr(ifs.Cond)
-				if cs != "err != nil" { // exactly this test: a narrowed one (`err != nil && !benign(err)`) lets some read errors through
+				// exactly the test `e != nil` of an error variable the init statement sets: a narrowed one
+				// (`err != nil && !benign(err)`) lets some read errors through
+				eo := errNilTest(w.Info, ifs.Cond)
+				if eo == nil {
+					return true
+				}
+				if ia, isAs := ifs.Init.(*ast.AssignStmt); !isAs || !errObjsOf(w.Info, ia)[eo] {
 					return true
 				}
 				returns := false
@@ -675,13 +704,8 @@ func ruleReadErrors(r *Run, rule string, k *serKind) {
 					if !ok {
 						continue
 					}
-					definesErr := false
-					for _, l := range as.Lhs {
-						if exprStr(l) == "err" {
-							definesErr = true
-						}
-					}
-					if !definesErr {
+					errObjs := errObjsOf(w.Info, as)
+					if len(errObjs) == 0 {
 						continue
 					}
 					// the next control statement must be `if err != nil { return …, non-nil }`; plain assignments that do not
@@ -689,8 +713,8 @@ func ruleReadErrors(r *Run, rule string, k *serKind) {
 					for j := i + 1; j < len(list); j++ {
 						if a2, ok := list[j].(*ast.AssignStmt); ok {
 							touches := false
-							for _, l := range a2.Lhs {
-								if exprStr(l) == "err" {
+							for o := range errObjsOf(w.Info, a2) {
+								if errObjs[o] {
 									touches = true
 								}
 							}
@@ -700,7 +724,7 @@ func ruleReadErrors(r *Run, rule string, k *serKind) {
 							break
 						}
 						ifs, ok := list[j].(*ast.IfStmt)
-						if !ok || ifs.Init != nil || exprStr(ifs.Cond) != "err != nil" {
+						if !ok || ifs.Init != nil || !errObjs[errNilTest(w.Info, ifs.Cond)] {
 							break
 						}
 						returns := false
@@ -752,7 +776,7 @@ func ruleReadErrors(r *Run, rule string, k *serKind) {
 			okHelper := false
 			ast.Inspect(side.HelperFn, func(n ast.Node) bool {
 				if rs, ok := n.(*ast.ReturnStmt); ok && len(rs.Results) == 1 {
-					if exprStr(rs.Results[0]) == "err" {
+					if id, isId := ast.Unparen(rs.Results[0]).(*ast.Ident); isId && w.Info.Uses[id] != nil && isErrorType(w.Info.Uses[id].Type()) {
 						okHelper = true
 					}
 					if c, ok := rs.Results[0].(*ast.CallExpr); ok && strings.HasPrefix(calleeOfExpr(w.Info, c), "encoding/binary.") {
@@ -830,6 +854,16 @@ func magicAndVersion(w *World, k *serKind) (wm, rm, wv, rv string) {
 				if m := regexp.MustCompile(`^(?:u?int(?:8|16|32|64)?\()?(\d+)\)?$`).FindStringSubmatch(t.Arg); m != nil {
 					wv = m[1]
 				}
+				// a local variable holding the constant (whatever its name)
+				if wv == "" {
+					for obj, def := range k.Writer.Defs {
+						if obj.Name() == strings.TrimPrefix(t.Arg, "&") {
+							if tv, ok := w.Info.Types[def]; ok && tv.Value != nil {
+								wv = tv.Value.ExactString()
+							}
+						}
+					}
+				}
 				break
 			}
 		}
@@ -860,6 +894,42 @@ func magicAndVersion(w *World, k *serKind) (wm, rm, wv, rv string) {
 		}
 		return true
 	})
+	if rv == "" {
+		// whatever the variable is called: the first field decoded after the magic bytes, compared with a constant in a
+		// rejecting condition
+		vname := ""
+		seenRaw := false
+		for _, t := range flattenToks(k.Reader.Toks) {
+			if t.Kind == "RAW" {
+				seenRaw = true
+				continue
+			}
+			if t.Kind == "FIELD" && seenRaw {
+				vname = strings.TrimPrefix(t.Arg, "&")
+				break
+			}
+		}
+		if vname != "" && vname != "version" {
+			ast.Inspect(k.RDecl.Body, func(n ast.Node) bool {
+				ifs, ok := n.(*ast.IfStmt)
+				if !ok || rv != "" {
+					return true
+				}
+				be, ok := ifs.Cond.(*ast.BinaryExpr)
+				if !ok || be.Op != token.NEQ || exprStr(be.X) != vname {
+					return true
+				}
+				for _, st := range ifs.Body.List {
+					if rs, ok := st.(*ast.ReturnStmt); ok && len(rs.Results) > 0 && exprStr(rs.Results[len(rs.Results)-1]) != "nil" {
+						if tv, ok := w.Info.Types[be.Y]; ok && tv.Value != nil {
+							rv = tv.Value.ExactString()
+						}
+					}
+				}
+				return true
+			})
+		}
+	}
 	// magic: the first raw buffer read is compared (string(buf) != "XXXX", !bytes.Equal(buf, []byte("XXXX")), buf != [4]byte{…})
 	// in a condition whose body returns an error
 	buf := ""
@@ -1794,4 +1864,54 @@ func localStructField(addr ssa.Value) bool {
 		}
 	}
 	return false
+}
+
+// errNilTest: cond is exactly `v != nil` for a variable v of type error; returns v's object.
+func errNilTest(info *types.Info, cond ast.Expr) types.Object {
+	be, ok := ast.Unparen(cond).(*ast.BinaryExpr)
+	if !ok || be.Op != token.NEQ {
+		return nil
+	}
+	x, y := ast.Unparen(be.X), ast.Unparen(be.Y)
+	if id, isId := x.(*ast.Ident); isId && id.Name == "nil" {
+		x, y = y, x
+	}
+	if id, isId := y.(*ast.Ident); !isId || id.Name != "nil" {
+		return nil
+	}
+	id, ok := x.(*ast.Ident)
+	if !ok {
+		return nil
+	}
+	obj := info.Uses[id]
+	if obj == nil {
+		obj = info.Defs[id]
+	}
+	if obj == nil || !isErrorType(obj.Type()) {
+		return nil
+	}
+	return obj
+}
+
+func isErrorType(t types.Type) bool {
+	return t != nil && types.Identical(t, types.Universe.Lookup("error").Type())
+}
+
+// errObjsOf: the error-typed variables an assignment defines or assigns.
+func errObjsOf(info *types.Info, as *ast.AssignStmt) map[types.Object]bool {
+	out := map[types.Object]bool{}
+	for _, l := range as.Lhs {
+		id, ok := l.(*ast.Ident)
+		if !ok || id.Name == "_" {
+			continue
+		}
+		obj := info.Defs[id]
+		if obj == nil {
+			obj = info.Uses[id]
+		}
+		if obj != nil && isErrorType(obj.Type()) {
+			out[obj] = true
+		}
+	}
+	return out
 }
